@@ -19,7 +19,7 @@ from fractions import Fraction as F
 import numpy as np
 
 import common
-from props.c10 import theta_space, real_coefs, OracleSpline, fr, Guard
+from props.c10 import theta_space, real_coefs, OracleSpline, fr, Guard, point_sensitivity
 
 LEVEL = 'proof'
 FACTOR = 64.0
@@ -162,8 +162,9 @@ def _run_case(chk, drv, case, stats):
     fac = abs(fr(bz) / fr(dz))
     bad = None
     worst = F(0)
+    sens = [point_sensitivity(B['kn'], B['theta'], float(B['C'].iotaVal) * (dz * l) / B['C'].R0) for l in sh]
     for a in range(nz):
-        scale = fac * sum(abs(fr(weights[k])) * M[(a + sh[k]) % nz] for k in range(order + 1))
+        scale = fac * sum(abs(fr(weights[k])) * sens[k] * M[(a + sh[k]) % nz] for k in range(order + 1))
         for q in range(nq):
             ex = F(mo['der'][a][q])
             err = abs(fr(der[a, q]) - ex)
